@@ -172,6 +172,12 @@ def check_conditional(case, ctx):
         e2 = build.dist(family).draw_sample(1, **kw, random_state=seed)
         if np.shape(s2) != (1, len(g)) or not eq(s2, e2, 1e-11):
             ctx.violation(f"sample_vector:{family}", f"given={g.tolist()} seed={seed}: shape {np.shape(s2)} got {np.ravel(s2)[:3].tolist()} expected {np.ravel(e2)[:3].tolist()}")
+    # integer-typed vector given for sampling (np.arange grids): the same draws as with the float form
+    gi_s = np.maximum(np.round(g), 1.0)
+    okf, sf = ctx.call(f"sample_vector_float:{family}", cond.draw_sample, 1, gi_s.copy(), random_state=seed)
+    okg, sg = ctx.call(f"sample_vector_int:{family}", cond.draw_sample, 1, gi_s.astype(int), random_state=seed)
+    if okf and okg and (np.shape(sf) != np.shape(sg) or not eq(sg, sf, 1e-11)):
+        ctx.violation(f"int_given:sample_vector:{family}", f"given={gi_s.astype(int).tolist()} seed={seed}: {np.ravel(sg)[:3].tolist()} but the same values as float -> {np.ravel(sf)[:3].tolist()}")
     # the template object itself must be untouched
     if desc["distribution"].parameters != build.dist(family, None, lvl.get("fixed")).parameters:
         ctx.violation(f"template_mutated:{family}", f"{desc['distribution'].parameters}")
